@@ -622,6 +622,21 @@ def special_objects():
             return _fwd_target(*args, **kwargs)
     out += [('SelfForged()', SelfForged())]
 
+    # a class that declares where its constructor forwards to: the declaration is the class's, its instances are callables of
+    # their own (through __call__) -- with and without a subclass in between
+    @specifiers.forwards_to_function(_fwd_target)
+    class ForgedClass(object):
+        def __init__(self, first, *args, **kwargs):
+            _fwd_target(*args, **kwargs)
+
+        def __call__(self, q, r=2):
+            return q
+
+    class ForgedSubclass(ForgedClass):
+        pass
+    out += [('ForgedClass', ForgedClass), ('ForgedClass(...)', ForgedClass(0, 1, 2, 3)), ('ForgedSubclass(...)', ForgedSubclass(0, 1, 2, 3)),
+            ('partial(ForgedClass(...), 1)', functools.partial(ForgedClass(0, 1, 2, 3), 1))]
+
     # forwards_to_super written above a modifiers decorator
     from sigtools import modifiers
 
